@@ -321,7 +321,10 @@ class Ctx:
             "wall_s": round(time.time() - self.t0, 2), "violations": self.violations,
             "known_findings_reproduced": sorted(self.known_hit),
         }
-        with open(os.path.join(VERIF, "evidence", "%s.json" % self.prop), "w") as f:
+        # runs against a scratch tree (VERIF_REPO != /repo: mutation testing) must not overwrite the committed evidence
+        evdir = os.path.join(VERIF, "evidence" if os.path.realpath(REPO) == "/repo" else "evidence_scratch")
+        os.makedirs(evdir, exist_ok=True)
+        with open(os.path.join(evdir, "%s.json" % self.prop), "w") as f:
             json.dump(ev, f, indent=1, default=str)
         return 1 if self.violations else 0
 
